@@ -6,6 +6,7 @@ import (
 	"regexp"
 	"strconv"
 	"strings"
+	"unicode"
 
 	"github.com/antlr4-go/antlr/v4"
 	gen "github.com/nyaruka/goflow/antlr/gen/excellent1"
@@ -63,9 +64,18 @@ func migrateLegacyTemplateAsString(template string, options *MigrateOptions) (st
 	scanner.SetUnescapeBody(false)
 	errors := excellent.NewTemplateErrors()
 
+	// position of a parenthesised expression that was written without parentheses, i.e. as @identifier
+	unwrappedAt := -1
+
 	for tokenType, token := scanner.Scan(); tokenType != excellent.EOF; tokenType, token = scanner.Scan() {
 		switch tokenType {
 		case excellent.BODY:
+			// if this text would be read as part of that identifier, put the parentheses back
+			if unwrappedAt >= 0 && token != "" && (token[0] == '.' || token[0] == '_' || unicode.IsLetter(rune(token[0])) || unicode.IsDigit(rune(token[0]))) {
+				identifier := buf.String()[unwrappedAt+1:]
+				buf.Truncate(unwrappedAt)
+				buf.WriteString("@(" + identifier + ")")
+			}
 			buf.WriteString(token)
 		case excellent.IDENTIFIER:
 			value := MigrateContextReference(token, options.RawDates)
@@ -98,9 +108,16 @@ func migrateLegacyTemplateAsString(template string, options *MigrateOptions) (st
 				}
 
 				// optionally wrap expression so that it is URL encoded or defaults to itself on error
-				buf.WriteString(wrapRawExpression(value, errorAs, options.URLEncode))
+				wrapped := wrapRawExpression(value, errorAs, options.URLEncode)
+				if !strings.HasPrefix(wrapped, "@(") {
+					unwrappedAt = buf.Len()
+					buf.WriteString(wrapped)
+					continue
+				}
+				buf.WriteString(wrapped)
 			}
 		}
+		unwrappedAt = -1
 	}
 
 	if errors.HasErrors() {
